@@ -157,6 +157,7 @@ def s6(ctx, rep, clause="S6"):
 def run(ctx, rep, tier="quick"):
     c01.s5(ctx, rep, clause="S1")
     c01.s5b(ctx, rep, clause="S1")
+    c01.s5c(ctx, rep, clause="S1")
     c01.s6(ctx, rep, clause="S1")
     s2(ctx, rep)
     s3(ctx, rep)
